@@ -31,6 +31,8 @@ run_directed = directed.run
 
 
 def cases(tier, rng):
+    for c in directed.constructor_results_cases():
+        yield "directed-constructor-results", c
     for c in directed.descriptor_members_cases():
         yield "directed-descriptor-members", c
     for c in directed.constructor_keyword_named_cls_cases():
